@@ -132,37 +132,46 @@ def shrink_program(scn, seed, program, violation, budget_runs=300, budget_s=45.0
             return True
         return False
 
-    ops = list(program["ops"])
     cfg = program["config"]
-    # 1. truncate after the violating event is implicit (ops executed only); ddmin
-    n = 2
-    while len(ops) >= 2 and runs < budget_runs and time.time() < t_end:
-        chunk = max(1, len(ops) // n)
-        reduced = False
-        for start in range(0, len(ops), chunk):
-            cand = ops[:start] + ops[start + chunk:]
-            if cand and test({"config": cfg, "ops": cand}):
+    lists = {key: list(program[key]) for key in getattr(scn, "list_keys", ["ops"])}
+    extra = {k: v for k, v in program.items() if k not in lists and k != "config"}
+
+    def build(cfg_, lists_):
+        return {"config": cfg_, **extra, **lists_}
+
+    for key in lists:
+        ops = lists[key]
+        # 1. ddmin
+        n = 2
+        while len(ops) >= 2 and runs < budget_runs and time.time() < t_end:
+            chunk = max(1, len(ops) // n)
+            reduced = False
+            for start in range(0, len(ops), chunk):
+                cand = ops[:start] + ops[start + chunk:]
+                if (cand or key != "ops") and test(build(cfg, {**lists, key: cand})):
+                    ops = cand
+                    lists[key] = ops
+                    n = max(n - 1, 2)
+                    reduced = True
+                    break
+            if not reduced:
+                if chunk == 1:
+                    break
+                n = min(n * 2, len(ops))
+        # 2. single-op removal pass
+        i = 0
+        while i < len(ops) and runs < budget_runs and time.time() < t_end:
+            cand = ops[:i] + ops[i + 1:]
+            if (cand or key != "ops" or len(lists) > 1) and test(build(cfg, {**lists, key: cand})):
                 ops = cand
-                n = max(n - 1, 2)
-                reduced = True
-                break
-        if not reduced:
-            if chunk == 1:
-                break
-            n = min(n * 2, len(ops))
-    # 2. single-op removal pass
-    i = 0
-    while i < len(ops) and runs < budget_runs and time.time() < t_end:
-        cand = ops[:i] + ops[i + 1:]
-        if cand and test({"config": cfg, "ops": cand}):
-            ops = cand
-        else:
-            i += 1
+                lists[key] = ops
+            else:
+                i += 1
     # 3. config simplification
     for new_cfg in scn.simplify_config(cfg):
-        if test({"config": new_cfg, "ops": ops}):
+        if test(build(new_cfg, lists)):
             cfg = new_cfg
-    return {"config": cfg, "ops": ops}, runs, best_v
+    return build(cfg, lists), runs, best_v
 
 
 # ------------------------------------------------------------------------------------------- batch
@@ -231,7 +240,7 @@ class Batch:
                         if res["status"] == "violation":
                             cls = res["class"]
                             entry = violations.get(cls)
-                            if entry is None or (res.get("shrink_runs", 0) > 0 and len(res["min_program"]["ops"]) < len(entry["min_program"]["ops"])):
+                            if entry is None or (res.get("shrink_runs", 0) > 0 and _n_ops(res["min_program"]) < _n_ops(entry["min_program"])):
                                 res["count"] = (entry or {}).get("count", 0) + 1
                                 violations[cls] = res
                             else:
@@ -289,13 +298,13 @@ class Batch:
             path = replay_dir / f"{res['seed']}-{v['tag']}.json"
             path.write_text(json.dumps({
                 "property": v["prop"], "check": prop, "scenario": list(self.scn_args), "seed": res["seed"],
-                "program": res["min_program"], "original_ops": len(res["program"]["ops"]),
+                "program": res["min_program"], "original_ops": _n_ops(res["program"]),
                 "violation": v, "shrink_runs": res.get("shrink_runs"), "count_in_batch": res["count"],
             }, indent=1, default=repr))
             new_violations.append((v, path, res))
             print(f"VIOLATION property={v['prop']} replay={path}")
             print(f"  {v['tag']} {v['discr']}: {v['detail'][:300]}")
-            print(f"  minimised to {len(res['min_program']['ops'])} ops (from {len(res['program']['ops'])}), seen in {res['count']} runs")
+            print(f"  minimised to {_n_ops(res['min_program'])} ops (from {_n_ops(res['program'])}), seen in {res['count']} runs")
         for i, he in enumerate(harness_errors[:3]):
             print(f"HARNESS-ERROR: seed={he.get('seed')} {he.get('error')}")
             if he.get("tb") and i == 0:
@@ -356,6 +365,10 @@ class Batch:
         if new_violations:
             return 1
         return 0
+
+
+def _n_ops(program: dict) -> int:
+    return sum(len(v) for k, v in program.items() if isinstance(v, list) and k in ("ops", "prefix"))
 
 
 def _brief(op: dict) -> dict:
